@@ -41,20 +41,12 @@ func acceptPostSameSource(c *core.Ctx) {
 			lits++
 			key := "literal/" + core.FuncName(fd)
 			var handlersVal, acceptVal ast.Expr
-			for _, el := range lit.Elts {
-				kv, ok := el.(*ast.KeyValueExpr)
-				if !ok {
-					continue
-				}
-				f, _ := astx.ObjOf(info, kv.Key).(*types.Var)
-				if f == nil {
-					continue
-				}
+			for f, val := range builtFields(info, fd.Body, lit) {
 				if sl, ok := f.Type().Underlying().(*types.Slice); ok && astx.NamedOf(sl.Elem()) != nil && astx.NamedOf(sl.Elem()).Obj().Name() == "protocolHandler" {
-					handlersVal = kv.Value
+					handlersVal = val
 				}
 				if f.Name() == "acceptPost" {
-					acceptVal = kv.Value
+					acceptVal = val
 				}
 			}
 			if handlersVal == nil || acceptVal == nil {
@@ -308,6 +300,29 @@ func contentTypeCodecInverse(c *core.Ctx) {
 			}
 			if _, isMap := info.TypeOf(ie.X).Underlying().(*types.Map); !isMap {
 				return false
+			}
+			// the key built by a first-party helper (prefix chosen inside it): its returns are the uses
+			if kc, isCall := astx.Unparen(ie.Index).(*ast.CallExpr); isCall {
+				if kf := astx.CalleeFunc(info, kc); kf != nil && p.Decl(kf) != nil {
+					astx.ForEachExit(info, p.Decl(kf).Body, func(ks *astx.State, kind astx.ExitKind, ret *ast.ReturnStmt) {
+						if ret == nil || len(ret.Results) != 1 {
+							return
+						}
+						unknowns := 0
+						pre, _ := ks.ConstStringOnPath(info, ret.Results[0], func(ast.Expr) { unknowns++ })
+						if unknowns > 1 {
+							c.Undecided(pname+"/handler-key", as.Pos(), "key built by %s has more than one non-constant part", kf.Name())
+							return
+						}
+						u := prefixUse{prefix: pre, hasName: unknowns > 0, pos: as, facts: append(factsOf(s), factsOf(ks)...)}
+						if u.hasName {
+							hUses = append(hUses, u)
+						} else {
+							hBare = append(hBare, u)
+						}
+					})
+					return false
+				}
 			}
 			unknowns := 0
 			pre, _ := s.ConstStringOnPath(info, ie.Index, func(ast.Expr) { unknowns++ })
